@@ -475,7 +475,7 @@ static void t_read(Hnd *h, long n, const char *forced_key)
     FileS *f = &F[h->fi];
     Elem *e = &f->el[h->e];
     long p = h->pos, len = e->len;
-    if (n < 0 || n > CAP - 100 || (len > CAP - 100)) return;
+    if (n < 0 || (n > CAP - 100 && n != INT32_MAX) || (len > CAP - 100)) return;
     memset(rbuf, 0x5a, sizeof rbuf);
     int32 rc = Hread(h->aid, (int32)n, rbuf);
     if (e->len >= 0 && !h->special) h->opened_new = 0; /* HIrefresh_new saw the length */
@@ -509,7 +509,7 @@ static void t_read(Hnd *h, long n, const char *forced_key)
         }
         printf("\n");
         /* did the call store bytes beyond what was asked for? */
-        long lim = n == 0 ? (want > 0 ? want : 0) : n;
+        long lim = (n == 0 || n == INT32_MAX) ? (want > 0 ? want : 0) : n;
         int over = 0;
         for (long i = lim; i < lim + SLACK; i++) over |= rbuf[i] != 0x5a;
         if (len >= 0 && rc != want) {
@@ -625,6 +625,90 @@ static void t_convert(Hnd *h)
     check_posn(h, e, 0);
 }
 
+
+/* Arguments outside the domain of the operations (negative lengths, an origin that is none of DF_START/DF_CURRENT/DF_END, a length at the
+   top of the int32 range): every such call must be REFUSED and change nothing (the model answers `fail`; h4model also runs the functions
+   translated from hfile.c on them).  Driven by a counter, not by the PRNG, so that the random stream of the case is the one it was. */
+static void t_badargs(Hnd *h, int k)
+{
+    FileS *f = &F[h->fi];
+    Elem *e = &f->el[h->e];
+    if (h->dangling) return;
+    switch (k % 8) {
+        case 0: { /* 20ed5b8: a negative length used to be stored in the DD */
+            long n = -1 - (k / 8) % 5;
+            int32 rc = Htrunc(h->aid, (int32)n);
+            printf("T elem trunc %d %ld => ", h->id, n);
+            if (rc == FAIL) printf("fail\n"); else printf("%d\n", (int)rc);
+            if (rc != FAIL) { hk_fail("elem-trunc-negative-length", "Htrunc(%ld) returns %d", n, (int)rc); stop_case = 1; }
+            break;
+        }
+        case 1: {
+            static const int ORG[] = {3, -1, 7, 256};
+            int org = ORG[(k / 8) % 4];
+            long off = (k / 8) % 3;
+            int rc = Hseek(h->aid, (int32)off, org);
+            printf("T elem seek %d %ld %d => %s\n", h->id, off, org, rc == FAIL ? "fail" : "ok");
+            if (rc != FAIL) { hk_fail("elem-seek-bad-origin", "Hseek(%ld, origin %d) succeeds", off, org); stop_case = 1; }
+            break;
+        }
+        case 2: {
+            long n = -1 - (k / 8) % 4;
+            memset(rbuf, 0x5a, 64);
+            int32 rc = Hread(h->aid, (int32)n, rbuf);
+            if (e->len >= 0 && !h->special) h->opened_new = 0; /* HIrefresh_new saw the length */
+            printf("T elem read %d %ld => ", h->id, n);
+            if (rc == FAIL) printf("fail\n"); else printf("%d -\n", (int)rc);
+            if (rc != FAIL) { hk_fail("elem-read-negative-length", "Hread(%ld) returns %d", n, (int)rc); stop_case = 1; }
+            for (int i = 0; i < 64; i++) if (rbuf[i] != 0x5a) { hk_fail("elem-read-negative-length", "a refused Hread(%ld) stored into the buffer", n); break; }
+            break;
+        }
+        case 3: {
+            long n = -1 - (k / 8) % 4;
+            wbuf[0] = 0x77;
+            int32 rc = Hwrite(h->aid, (int32)n, wbuf);
+            if (h->wr && !h->special && e->len >= 0) h->opened_new = 0; /* HIrefresh_new saw the length */
+            printf("T elem writen %d %ld => ", h->id, n);
+            if (rc == FAIL) printf("fail\n"); else printf("%d\n", (int)rc);
+            if (rc != FAIL) { hk_fail("elem-write-negative-length", "Hwrite(%ld) returns %d", n, (int)rc); stop_case = 1; }
+            break;
+        }
+        case 4: {
+            long n = -1 - (k / 8) % 6;
+            int rc = Hsetlength(h->aid, (int32)n);
+            if (e->len >= 0 && !h->special) h->opened_new = 0; /* HIrefresh_new saw the length */
+            printf("T elem setlength %d %ld => %s\n", h->id, n, rc == FAIL ? "fail" : "ok");
+            if (rc != FAIL) { hk_fail("elem-setlength-negative", "Hsetlength(%ld) succeeds", n); stop_case = 1; }
+            break;
+        }
+        case 5: { /* nothing is as long as INT32_MAX */
+            if (!h->wr || !f->writable || e->aliased) break;
+            int32 rc = Htrunc(h->aid, INT32_MAX);
+            printf("T elem trunc %d %ld => ", h->id, (long)INT32_MAX);
+            if (rc == FAIL) printf("fail\n"); else printf("%d\n", (int)rc);
+            if (rc != FAIL) { hk_fail("elem-trunc-huge-length", "Htrunc(INT32_MAX) returns %d", (int)rc); stop_case = 1; }
+            break;
+        }
+        case 6: { /* 7739a98: a position that does not fit an int32 is refused (the sum used to be formed); ordinary elements only -
+                     HLPseek still adds without a test */
+            if (h->special || e->linked || e->len < 0) break;
+            int org = h->pos > 0 ? DF_CURRENT : DF_END;
+            if (org == DF_END && e->len <= 0) break;
+            int rc = Hseek(h->aid, INT32_MAX, org);
+            printf("T elem seek %d %ld %d => %s\n", h->id, (long)INT32_MAX, org, rc == FAIL ? "fail" : "ok");
+            if (rc != FAIL) { hk_fail("elem-seek-beyond-int32", "Hseek(INT32_MAX, origin %d) at %ld succeeds", org, h->pos); stop_case = 1; }
+            break;
+        }
+        default: /* 34ac7b8: `length + posn` used to overflow; a length beyond the end is clipped at the end */
+            /* (same repair in HLPread: 59bfd42) */
+            if (e->len >= 0 && e->len <= CAP - 100 && !e->aliased) t_read(h, INT32_MAX, NULL);
+            break;
+    }
+    if (!stop_case) check_posn(h, e, 0);
+}
+
+static int hopcount;
+
 static void do_handle_op(void)
 {
     int cand[MAXH], nc = 0;
@@ -633,6 +717,7 @@ static void do_handle_op(void)
     Hnd *h = &H[cand[hk_range(0, nc - 1)]];
     FileS *f = &F[h->fi];
     Elem *e = &f->el[h->e];
+    if (++hopcount % 9 == 0) { t_badargs(h, hopcount / 9); if (stop_case) return; }
     switch ((int)hk_range(0, 19)) {
         case 0: case 1: case 2: case 3: case 4: case 5:
             if (f->writable) t_write(h, hk_chance(3) ? 0 : pick_len());
@@ -800,7 +885,7 @@ static void scenario_two_ids_new(int convert, int viaseek)
 static void run_case(int k)
 {
     memset(F, 0, sizeof F); memset(H, 0, sizeof H);
-    nexth = 1; stop_case = 0; npool = 0; opcount = 0;
+    nexth = 1; stop_case = 0; npool = 0; opcount = 0; hopcount = 0;
     static const int NDDS[] = {4, 5, 7, 16};
     int nfiles = hk_chance(25) ? 2 : 1;
     for (int i = 0; i < nfiles; i++) {
